@@ -178,6 +178,18 @@ pub fn c01<T: Fx>(thorough: bool) -> Vec<CellDef> {
         for (sfx, sp) in pairs::<T>(thorough) {
             v.push(CellDef::new("C01", format!("{}/{}{}", T::NAME, OPS[op as usize], sfx), sp, move |k| bin_case::<T>(op, k)));
         }
+        if T::N == 16 && op == 2 && !thorough {
+            // (the thorough tier enumerates all 2^32 pairs anyway)
+            let mut l: Vec<u128> = vec![];
+            for (a, b) in crate::deep::pairs16(12) {
+                l.push((a as u128) << 32 | b as u128);
+                l.push((b as u128) << 32 | a as u128);
+                l.push(((a.wrapping_neg() & 0xffff) as u128) << 32 | b as u128);
+            }
+            l.sort();
+            l.dedup();
+            v.push(CellDef::new("C01", "P16E1/mul#deep", Space::list(l, "every positive pair whose exact product ends in a lone bit below >= 12 zeros or in > 12 ones (complete search), both orders, one negated"), move |k| bin_case::<T>(op, k)));
+        }
         if T::N == 32 {
             // shape alphabet: operands whose fractions are runs of ones / single bits at every relative scale
             let ax = crate::deep::alphabet_x(32, 2, thorough);
@@ -187,6 +199,58 @@ pub fn c01<T: Fx>(thorough: bool) -> Vec<CellDef> {
                 let near = crate::deep::alphabet_x_near_one(32, 2, false);
                 v.push(CellDef::new("C01", format!("P32E2/{}#shapes", OPS[op as usize]), Space::prod2(near.clone(), ax.clone(), "shape alphabet members with scale in [-2,2] x whole shape alphabet"), move |k| bin_case::<T>(op, k)));
                 v.push(CellDef::new("C01", format!("P32E2/{}#shapes_r", OPS[op as usize]), Space::prod2(ax, near, "whole shape alphabet x members with scale in [-2,2]"), move |k| bin_case::<T>(op, k)));
+            }
+            if op == 2 {
+                // products with a sparse / saturated tail (lone lowest bit, long runs of ones): both operand orders
+                let z = if thorough { 16 } else { 20 };
+                let mut l: Vec<u128> = vec![];
+                for (a, b) in crate::deep::pairs32(z, true) {
+                    for (x, y) in [(a, b), (b, a), (a.wrapping_neg(), b), (a, b.wrapping_neg())] {
+                        l.push((x as u128) << 32 | y as u128);
+                    }
+                }
+                l.sort();
+                l.dedup();
+                v.push(CellDef::new("C01", "P32E2/mul#deep", Space::list(l, format!("operand pairs whose exact product ends in a lone bit below >= {z} zeros or in > {z} ones, both orders and signs")), move |k| bin_case::<T>(op, k)));
+            }
+            if op == 2 {
+                // modular-inverse collisions: b solved so that the low 28 bits of the exact product are a chosen tail
+                let mut l: Vec<u128> = vec![];
+                for (a, b) in crate::deep::inverse_pairs(32, 2, if thorough { 1 << 16 } else { 1 << 12 }) {
+                    // scale variants: the product carries or not depending on the operands; also try b doubled / halved
+                    for (x, y) in [(a, b), (b, a), (a.wrapping_neg(), b), (a, b.wrapping_add(0x0800_0000)), (a.wrapping_sub(0x0800_0000), b)] {
+                        l.push((x as u128) << 32 | y as u128);
+                    }
+                }
+                l.sort();
+                l.dedup();
+                v.push(CellDef::new("C01", "P32E2/mul#inverse", Space::list(l, "a = 1.F (every odd fraction shape + a fixed list of unstructured odd fractions), b solved by modular inverse so that the low 28 bits of the exact product are a chosen tail (tie, tie+-1, 0 1..1, all ones, lone bits, ...); both orders, a sign flip and two exponent variants"), move |k| bin_case::<T>(op, k)));
+            }
+            if op == 3 {
+                // exact and almost exact quotients: a = q*b exactly representable, divided by b, with a displaced by -1, 0, 1 encodings
+                let near = crate::deep::alphabet_x_near_one(32, 2, thorough);
+                let bs = crate::deep::alphabet_x(32, 2, false);
+                let bs = thin(&bs, if thorough { 1 } else { 3 });
+                let mut l: Vec<u128> = vec![];
+                for &q in &near {
+                    let Some(xq) = o::decode(32, 2, q) else { continue };
+                    for &b in &bs {
+                        let Some(xb) = o::decode(32, 2, b) else { continue };
+                        if xb.is_zero() || xq.is_zero() {
+                            continue;
+                        }
+                        let (a, inex) = o::round_ex(32, 2, o::mul(xq, xb));
+                        if inex {
+                            continue;
+                        }
+                        for d in [-1i32, 0, 1] {
+                            l.push((a.wrapping_add(d as u32) as u128) << 32 | b as u128);
+                        }
+                    }
+                }
+                l.sort();
+                l.dedup();
+                v.push(CellDef::new("C01", "P32E2/div#exact", Space::list(l, "a = q*b exactly representable (q near one with a fraction shape, b in the shape alphabet), a displaced by -1, 0, 1 encodings, divided by b"), move |k| bin_case::<T>(op, k)));
             }
             let al = alphabet(32, 2, thorough);
             let al = if thorough { al } else { thin(&al, 3) };
@@ -249,7 +313,11 @@ pub fn c05<T: Fx>(thorough: bool) -> Vec<CellDef> {
         }
         32 => {
             let z = if thorough { 16 } else { 20 };
-            Some((std::sync::Arc::new(crate::deep::pairs32(z, true)), 34, format!("a in [1,2) with a 27-bit fraction shape x b at every scale with every fraction shape, kept when the exact product has a sparse tail of length >= {z}")))
+            let mut pr = crate::deep::pairs32(z, true);
+            pr.extend(crate::deep::inverse_pairs(32, 2, if thorough { 1 << 13 } else { 1 << 10 }));
+            pr.sort();
+            pr.dedup();
+            Some((std::sync::Arc::new(pr), 34, format!("a in [1,2) with a 27-bit fraction shape x b at every scale with every fraction shape, kept when the exact product has a sparse tail of length >= {z}; plus modular-inverse pairs (unstructured a, b solved so that the low 28 product bits are a chosen tail)")))
         }
         _ => None,
     };
@@ -316,6 +384,26 @@ pub fn c06<T: Fx>(thorough: bool) -> Vec<CellDef> {
 
 fn conv_cell<S: Fx, D: Fx>(thorough: bool, f: fn(S) -> D) -> Vec<CellDef> {
     let mut v = vec![];
+    if S::N == 32 && !thorough {
+        // source values that are an exact tie of the target plus one lone bit at every distance the source can hold
+        let lim = (D::N as i32 - 2) * (1 << D::ES) + 2;
+        let mut l: Vec<u32> = vec![];
+        for (m, e) in tie_bit_values(D::N, D::ES, 28, -lim..=lim) {
+            for neg in [false, true] {
+                let (p, inex) = o::round_ex(32, 2, o::Ex { neg, m, e, sticky: false });
+                if !inex {
+                    l.push(p);
+                }
+            }
+        }
+        l.sort();
+        l.dedup();
+        v.push(CellDef::new("C08", format!("{}->{}#tiebit", S::NAME, D::NAME), Space::list32(l, "P32E2 values that are an exact tie of the target + one lone bit d places below the guard bit (every d the source can hold), every scale"), move |k| {
+            let a = k as u32;
+            let (want, nt) = refs::conv(S::N, S::ES, D::N, D::ES, a);
+            Out::cmp(guard(|| f(S::fb(a)).tb() as u128), want as u128, nt)
+        }));
+    }
     for (sfx, sp) in unary::<S>(thorough) {
         v.push(CellDef::new("C08", format!("{}->{}{}", S::NAME, D::NAME, sfx), sp, move |k| {
             let a = k as u32;
@@ -651,6 +739,41 @@ pub fn c02<T: Fx>(thorough: bool) -> Vec<CellDef> {
         }),
         move |k| f64case(f64::from_bits(k as u64)),
     ));
+    // tie plus one lone bit at every distance below the guard bit, at every scale (f64 and f32 sources)
+    {
+        let lim = (T::N as i32 - 2) * (1 << T::ES) + 2;
+        let vals = tie_bit_values(T::N, T::ES, 52, -lim..=lim);
+        let mut l64: Vec<u128> = vec![];
+        let mut l32: Vec<u128> = vec![];
+        for (m, e) in vals {
+            for neg in [false, true] {
+                let x = o::Ex { neg, m, e, sticky: false };
+                if let Some(b) = o::to_f64_bits_exact(x) {
+                    l64.push(b as u128);
+                    let f = f64::from_bits(b);
+                    if (f as f32) as f64 == f {
+                        l32.push((f as f32).to_bits() as u128);
+                    }
+                }
+            }
+        }
+        l64.sort();
+        l64.dedup();
+        l32.sort();
+        l32.dedup();
+        v.push(CellDef::new("C02", format!("{}/from_f64#tiebit", T::NAME), Space::list(l64, "for every scale and a menu of kept fractions: the exact tie and tie + one lone bit d places below the guard bit, d = 1..52, both signs (the values f64 holds exactly)"), move |k| f64case(f64::from_bits(k as u64))));
+        v.push(CellDef::new("C02", format!("{}/from_f32#tiebit", T::NAME), Space::list(l32, "the same family restricted to values f32 holds exactly"), |k| {
+            let x = f32::from_bits(k as u32);
+            let (want, nt) = refs::from_f64(T::N, T::ES, x as f64);
+            let got = guard(|| {
+                let a = T::from_f32(x).tb();
+                let b = T::into_f32(x).tb();
+                let c = T::from_f64(x as f64).tb();
+                if a == b && b == c { a as u128 } else { (a as u128) | (b as u128) << 32 | (c as u128) << 64 | 1 << 100 }
+            });
+            Out::cmp(got, want as u128, nt).ops(3)
+        }));
+    }
     // doubles at and around every rounding boundary of the target
     let targets: Space = match T::N {
         8 => Space::all(8),
@@ -865,6 +988,39 @@ pub fn c07<T: Fx>(thorough: bool) -> Vec<CellDef> {
             let (want, nt) = refs::from_int(n, es, x as i128);
             let got = guard(|| {
                 let (a, b, c) = (T::from_u64(x).tb(), T::into_u64(x).tb(), T::from_usize(x as usize).tb());
+                if a == b && b == c { a as u128 } else { (a as u128) | (b as u128) << 32 | (c as u128) << 64 | 1 << 100 }
+            });
+            Out::cmp(got, want as u128, nt).ops(3)
+        }));
+    }
+    {
+        // tie plus one lone bit at every distance, at every integer scale
+        let vals = tie_bit_values(n, es, 62, 1..=63);
+        let mut l: Vec<u128> = vec![];
+        for (m, e) in vals {
+            if e >= 0 && (128 - m.leading_zeros() as i32 + e) <= 64 {
+                l.push(m << e as u32);
+            }
+        }
+        l.sort();
+        l.dedup();
+        let l2 = l.clone();
+        v.push(CellDef::new("C07", format!("{}/from_u64#tiebit", T::NAME), Space::list(l, "integers of the form 1.F 1 0..0 1 (exact tie + one lone bit d places below the guard, every d) at every bit length, and the exact ties"), move |k| {
+            let x = k as u64;
+            let (want, nt) = refs::from_int(n, es, x as i128);
+            let got = guard(|| {
+                let (a, b) = (T::from_u64(x).tb(), T::into_u64(x).tb());
+                let c = if x <= u32::MAX as u64 { T::from_u32(x as u32).tb() } else { a };
+                if a == b && b == c { a as u128 } else { (a as u128) | (b as u128) << 32 | (c as u128) << 64 | 1 << 100 }
+            });
+            Out::cmp(got, want as u128, nt).ops(3)
+        }));
+        v.push(CellDef::new("C07", format!("{}/from_i64#tiebit", T::NAME), Space::list(l2.into_iter().filter(|&x| x < (1u128 << 63)).flat_map(|x| [x, (x as i64).wrapping_neg() as u64 as u128]).collect(), "the same family as i64, both signs"), move |k| {
+            let x = k as u64 as i64;
+            let (want, nt) = refs::from_int(n, es, x as i128);
+            let got = guard(|| {
+                let (a, b) = (T::from_i64(x).tb(), T::into_i64(x).tb());
+                let c = if x >= i32::MIN as i64 && x <= i32::MAX as i64 { T::from_i32(x as i32).tb() } else { a };
                 if a == b && b == c { a as u128 } else { (a as u128) | (b as u128) << 32 | (c as u128) << 64 | 1 << 100 }
             });
             Out::cmp(got, want as u128, nt).ops(3)
